@@ -5,7 +5,6 @@ import (
 	"go/ast"
 	"os"
 	"path/filepath"
-	"regexp"
 	"strings"
 
 	"nvharness/lib/gofacts"
@@ -13,220 +12,420 @@ import (
 
 // ---------------------------------------------------------------- extract
 //
-// Facts are read from the normalised source text of the declarations, after removing statements that only log
-// (calls rooted at `….Logger()` or `s.loggerSendReadErr`): a log line is not part of the behaviour modelled.
+// Every fact is an exact-shape comparison of a WHOLE function declaration (receiver, signature, body) in canonical
+// form (gofacts.Canon: locals renamed in order of appearance, `var x = e` ≡ `x := e`, white space collapsed) against
+// the canonical form of the source text the model was written from. Nothing is searched for inside a body: an
+// inserted, removed or moved statement (a misplaced `defer` included) makes the comparison fail, and what cannot be
+// classified is reported as unknown / false — the tie breaks instead of guessing.
+//
+// Before the comparison, statements that only log are removed. A statement counts as "only logging" when it is an
+// expression statement `<logger>.Debug|Info|Warn|Error(args…)` with <logger> one of `s.b.Logger()`, `s.Logger()`,
+// `cnf.Logger()`, or `s.loggerSendReadErr(args…)`, and every argument is free of side effects: a literal, an
+// identifier, a field selection, or a call of zap.Error/Any/String/Stack, s.RemoteZap, s.KeyZaps with such arguments.
+// The bodies of those helpers (loggerSendReadErr, Logger, RemoteZap, KeyZaps, RemoteAddr) are pinned themselves.
 
-func isLogCall(f *gofacts.File, e ast.Expr) bool {
-	call, ok := e.(*ast.CallExpr)
+var logGetters = map[string]bool{"s.b.Logger()": true, "s.Logger()": true, "cnf.Logger()": true}
+var logLevels = map[string]bool{"Debug": true, "Info": true, "Warn": true, "Error": true}
+var pureCalls = map[string]bool{"zap.Error": true, "zap.Any": true, "zap.String": true, "zap.Stack": true,
+	"s.RemoteZap": true, "s.KeyZaps": true}
+
+func pureExpr(f *gofacts.File, e ast.Expr) bool {
+	switch x := e.(type) {
+	case *ast.BasicLit, *ast.Ident:
+		return true
+	case *ast.SelectorExpr:
+		return pureExpr(f, x.X)
+	case *ast.CallExpr:
+		if !pureCalls[f.Src(x.Fun)] {
+			return false
+		}
+		for _, a := range x.Args {
+			if !pureExpr(f, a) {
+				return false
+			}
+		}
+		return true
+	}
+	return false
+}
+
+func isLogStmt(f *gofacts.File, st ast.Stmt) bool {
+	es, ok := st.(*ast.ExprStmt)
 	if !ok {
 		return false
 	}
-	src := f.Src(call)
-	return strings.HasPrefix(src, "s.b.Logger().") || strings.HasPrefix(src, "cnf.Logger().") ||
-		strings.HasPrefix(src, "s.loggerSendReadErr(") || strings.HasPrefix(src, "s.Logger().")
+	call, ok := es.X.(*ast.CallExpr)
+	if !ok {
+		return false
+	}
+	okFun := false
+	if sel, ok := call.Fun.(*ast.SelectorExpr); ok {
+		if f.Src(call.Fun) == "s.loggerSendReadErr" {
+			okFun = true
+		} else if logLevels[sel.Sel.Name] && logGetters[f.Src(sel.X)] {
+			okFun = true
+		}
+	}
+	if !okFun {
+		return false
+	}
+	for _, a := range call.Args {
+		if !pureExpr(f, a) {
+			return false
+		}
+	}
+	return true
 }
 
-// stripLogs removes pure logging statements from a block, recursively (in place on the parsed copy).
-func stripLogs(f *gofacts.File, n ast.Node) {
-	ast.Inspect(n, func(x ast.Node) bool {
+// stripLogs removes pure logging statements from every block of the file (in place on the parsed copy).
+func stripLogs(f *gofacts.File) {
+	ast.Inspect(f.AST, func(x ast.Node) bool {
 		blk, ok := x.(*ast.BlockStmt)
 		if !ok {
 			return true
 		}
 		var keep []ast.Stmt
 		for _, st := range blk.List {
-			if es, ok := st.(*ast.ExprStmt); ok && isLogCall(f, es.X) {
-				continue
+			if !isLogStmt(f, st) {
+				keep = append(keep, st)
 			}
-			keep = append(keep, st)
 		}
 		blk.List = keep
 		return true
 	})
 }
 
-func classifyDefers(ds []string) string {
-	switch strings.Join(ds, ";") {
-	case "s.recovery();s.quit()":
-		return "recoveryQuit"
-	case "s.quit();s.recovery()":
-		return "quitRecovery"
-	case "s.quit()":
-		return "quitOnly"
-	case "s.recovery()":
-		return "recoveryOnly"
-	case "":
-		return "none"
+// a separator before a closing brace carries no meaning (`{ a; b }` ≡ `{ a; b; }`, `T{x: 1}` ≡ `T{x: 1,}`)
+func tidy(s string) string {
+	for strings.Contains(s, "; }") || strings.Contains(s, ", }") {
+		s = strings.ReplaceAll(strings.ReplaceAll(s, "; }", "}"), ", }", "}")
 	}
-	return "unknown"
+	return s
 }
 
-// body of a function without its top-level defer statements
-func bodyNoDefers(f *gofacts.File, fd *ast.FuncDecl) string {
-	if fd == nil || fd.Body == nil {
-		return ""
+func want(src string) string {
+	s, err := gofacts.CanonText(src)
+	if err != nil {
+		fmt.Fprintln(os.Stderr, "c16 extract: bad template:", err, "\n", src)
+		os.Exit(2)
 	}
-	var parts []string
-	for _, st := range fd.Body.List {
-		if _, ok := st.(*ast.DeferStmt); ok {
+	return tidy(s)
+}
+
+func canon(f *gofacts.File, fd *ast.FuncDecl) string { return tidy(f.Canon(fd)) }
+
+// is reports whether the declaration recv.name of f has exactly the canonical shape of src.
+func is(f *gofacts.File, recv, name, src string) bool {
+	fd := f.Func(recv, name)
+	ok := fd != nil && canon(f, fd) == want(src)
+	if !ok && os.Getenv("C16_EXTRACT_DEBUG") != "" {
+		got := "<missing>"
+		if fd != nil {
+			got = canon(f, fd)
+		}
+		fmt.Fprintf(os.Stderr, "shape differs: %s.%s\n  got  %s\n  want %s\n", recv, name, got, want(src))
+	}
+	return ok
+}
+
+// ---- templates (the source the model was written from; log statements already removed)
+
+var deferKinds = map[string]string{
+	"recoveryQuit": "defer s.recovery(); defer s.quit();",
+	"quitRecovery": "defer s.quit(); defer s.recovery();",
+	"quitOnly":     "defer s.quit();",
+	"recoveryOnly": "defer s.recovery();",
+	"none":         "",
+}
+
+func tmplLoopSend(defers, pop, empty string) string {
+	popCall := map[string]string{"popAnyway": "s.sendQ.PopAnyway()", "pop": "s.sendQ.Pop()"}[pop]
+	check := map[string]string{
+		"quits": "if !ok || len(bs) == 0 { return }",
+		"skips": "if !ok { return }; if len(bs) == 0 { continue }",
+	}[empty]
+	return `func (s *Session) loopSend() {
+	var (
+		err   error
+		qItem interface{}
+		bs    []byte
+		ok    bool
+	)
+	` + deferKinds[defers] + `
+	for {
+		qItem, err = ` + popCall + `
+		if err != nil { return }
+		bs, ok = qItem.([]byte)
+		` + check + `
+		err = s.send(bs)
+		if err != nil { return }
+	}
+}`
+}
+
+func tmplLoopReceive(defers string) string {
+	return `func (s *Session) loopReceive() {
+	` + deferKinds[defers] + `
+	for {
+		var err = s.conn.SetReadDeadline(time.Now().Add(s.b.readTimeout))
+		if err != nil { return }
+		if s.rh != nil { err = s.rh.Read(s) } else { err = s.b.rh.Read(s) }
+		if err != nil { return }
+	}
+}`
+}
+
+// quit: the four effects in the model's order, each present or not, inside exitOnce.Do or not
+func tmplQuit(once, onExit, dec, closeQ, closeConn bool) string {
+	body := ""
+	if onExit {
+		body += "if s.rh != nil { s.rh.OnExit(s) } else { s.b.rh.OnExit(s) };"
+	}
+	if dec {
+		body += "s.b.count.Dec();"
+	}
+	if closeQ {
+		body += "s.sendQ.Close();"
+	}
+	if closeConn {
+		body += "if s.conn != nil { var err = s.conn.Close(); if err != nil { } };"
+	}
+	if once {
+		return "func (s *Session) quit() { s.exitOnce.Do(func() { " + body + " }) }"
+	}
+	return "func (s *Session) quit() { " + body + " }"
+}
+
+func tmplLoopAccept(cmp string) string {
+	return `func (s *Server) loopAccept(cnf *_SrvStartOpt) error {
+	var conn net.Conn
+	var err error
+	var errNet ITemporary
+	var ok bool
+	var accDelay time.Duration
+	var accRetryCount int
+	var handleErr = func() error {
+		errNet, ok = err.(ITemporary)
+		if !ok { return err }
+		if !errNet.Temporary() { return err }
+		accRetryCount++
+		if accRetryCount >= cnf.acceptMaxRetry { return err }
+		if accDelay <= 0 { accDelay = cnf.acceptDelay } else { accDelay *= 2 }
+		if accDelay >= cnf.acceptMaxDelay { accDelay = cnf.acceptMaxDelay }
+		time.Sleep(accDelay)
+		return nil
+	}
+	var outErr error
+	for {
+		conn, err = s.ln.Accept()
+		if err != nil {
+			outErr = handleErr()
+			if outErr != nil { return outErr }
 			continue
 		}
-		if ds, ok := st.(*ast.DeclStmt); ok {
-			_ = ds
-			continue // local variable declarations carry no behaviour
+		accDelay = 0
+		accRetryCount = 0
+		if s.ch.ConnCount() ` + cmp + ` cnf.maxConn {
+			var e = conn.Close()
+		} else {
+			s.ch.Do(conn)
 		}
-		parts = append(parts, f.Src(st))
 	}
-	return strings.Join(parts, " ")
+}`
 }
 
 type extracted struct {
 	sendPop, emptySend, sendDefers, recvDefers, acceptCmp    string
 	quitOnce, quitOnExit, quitDec, quitCloseQ, quitCloseConn bool
-	startIncOnce, sendEnqueues, closeClosesQueue             bool
-	sendLoopShape, recvLoopShape, sendSetsDeadline           bool
-	doStartsSession, acceptShape, queueShape                 bool
-	quitShape, recoveryShape                                 bool
+	facts                                                    [14]bool
 }
+
+var factNames = [14]string{"start", "send", "close", "sendLoop", "recvLoop", "sendDl", "do", "accept", "queue", "quit",
+	"recovery", "server", "sessMisc", "echo"}
 
 func doExtract(repo string) extracted {
 	var x extracted
 	sess := gofacts.MustLoad(repo, "stcp/sess.go")
 	mgr := gofacts.MustLoad(repo, "stcp/sessmgr.go")
 	srv := gofacts.MustLoad(repo, "stcp/srv.go")
+	echo := gofacts.MustLoad(repo, "stcp/echo.go")
 	qf := gofacts.MustLoad(repo, "syncx/pipe/q/q.go")
-	for _, f := range []*gofacts.File{sess, mgr, srv, qf} {
-		stripLogs(f, f.AST)
+	// loggerSendReadErr, Logger & co. are compared as written; everything else with pure log statements removed
+	loggerOK := is(sess, "Session", "loggerSendReadErr", `func (s *Session) loggerSendReadErr(msg string, err error) {
+		if s.b.Logger().Level() <= zapcore.WarnLevel { s.b.Logger().Warn(msg, s.KeyZaps(zap.Error(err), s.RemoteZap())...) } }`) &&
+		is(sess, "Session", "Logger", `func (s *Session) Logger() *ulog.Logger { return s.b.Logger() }`) &&
+		is(mgr, "SessionMgr", "Logger", `func (m *SessionMgr) Logger() *ulog.Logger { if m.logger == nil { return ulog.GetDefaultLogger() }; return m.logger }`) &&
+		is(srv, "_SrvStartOpt", "Logger", `func (o *_SrvStartOpt) Logger() *ulog.Logger { if o.logger == nil { return ulog.GetDefaultLogger() }; return o.logger }`) &&
+		is(sess, "Session", "RemoteZap", `func (s *Session) RemoteZap() zap.Field { return zap.String("session.Addr", s.RemoteAddr()) }`) &&
+		is(sess, "Session", "KeyZaps", `func (s *Session) KeyZaps(ext ...zap.Field) []zap.Field { return absSessionInfo(s.value, ext...) }`) &&
+		is(sess, "Session", "RemoteAddr", `func (s *Session) RemoteAddr() string { return absRemoteAddr(s.remoteAddr, s.conn) }`)
+	for _, f := range []*gofacts.File{sess, mgr, srv, echo, qf} {
+		stripLogs(f)
 	}
 
 	// --- Start / Send / Close
-	x.startIncOnce = sess.Body("Session", "Start") == gofacts.Norm("{ s.startOnce.Do(func() { s.b.count.Inc() go s.loopSend() go s.loopReceive() }) }")
-	x.sendEnqueues = sess.Body("Session", "Send") == gofacts.Norm("{ return s.sendQ.AddReq(bs) }")
-	x.closeClosesQueue = sess.Body("Session", "Close") == gofacts.Norm("{ s.sendQ.Close() }")
+	x.facts[0] = is(sess, "Session", "Start", `func (s *Session) Start() { s.startOnce.Do(func() { s.b.count.Inc(); go s.loopSend(); go s.loopReceive() }) }`)
+	x.facts[1] = is(sess, "Session", "Send", `func (s *Session) Send(bs []byte) error { return s.sendQ.AddReq(bs) }`)
+	x.facts[2] = is(sess, "Session", "Close", `func (s *Session) Close() { s.sendQ.Close() }`)
 
-	// --- loopSend
-	ls := sess.Func("Session", "loopSend")
-	x.sendDefers = classifyDefers(sess.Defers(ls))
-	lsBody := bodyNoDefers(sess, ls)
-	x.sendPop = "unknown"
-	popCall := ""
-	switch {
-	case gofacts.Has(lsBody, "qItem, err = s.sendQ.PopAnyway()"):
-		x.sendPop, popCall = "popAnyway", "s.sendQ.PopAnyway()"
-	case gofacts.Has(lsBody, "qItem, err = s.sendQ.Pop()"):
-		x.sendPop, popCall = "pop", "s.sendQ.Pop()"
-	}
-	x.emptySend = "unknown"
-	check := ""
-	switch {
-	case gofacts.Has(lsBody, "bs, ok = qItem.([]byte) if !ok || len(bs) == 0 { return }"):
-		x.emptySend, check = "quits", "if !ok || len(bs) == 0 { return }"
-	case gofacts.Has(lsBody, "bs, ok = qItem.([]byte) if !ok { return } if len(bs) == 0 { continue }"):
-		x.emptySend, check = "skips", "if !ok { return } if len(bs) == 0 { continue }"
-	}
-	x.sendLoopShape = popCall != "" && check != "" && lsBody == gofacts.Norm(
-		"for { qItem, err = "+popCall+" if err != nil { return } bs, ok = qItem.([]byte) "+check+" err = s.send(bs) if err != nil { return } }")
-
-	// --- loopReceive
-	lr := sess.Func("Session", "loopReceive")
-	x.recvDefers = classifyDefers(sess.Defers(lr))
-	x.recvLoopShape = bodyNoDefers(sess, lr) == gofacts.Norm(
-		"for { var err = s.conn.SetReadDeadline(time.Now().Add(s.b.readTimeout)) if err != nil { return } "+
-			"if s.rh != nil { err = s.rh.Read(s) } else { err = s.b.rh.Read(s) } if err != nil { return } }")
-
-	// --- send
-	x.sendSetsDeadline = sess.Body("Session", "send") == gofacts.Norm(
-		"{ var err = s.conn.SetWriteDeadline(time.Now().Add(s.b.writeTimeout)) if err != nil { return err } _, err = s.conn.Write(buf) return err }")
-
-	// --- recovery: the deferred function itself calls recover()
-	x.recoveryShape = sess.Body("Session", "recovery") == gofacts.Norm("{ var r = recover() if r != nil { } }")
-
-	// --- quit
-	qd := sess.Func("Session", "quit")
-	var stmts []ast.Stmt
-	if qd != nil && qd.Body != nil {
-		stmts = qd.Body.List
-		if len(stmts) == 1 {
-			if es, ok := stmts[0].(*ast.ExprStmt); ok {
-				if call, ok := es.X.(*ast.CallExpr); ok && sess.Src(call.Fun) == "s.exitOnce.Do" && len(call.Args) == 1 {
-					if fl, ok := call.Args[0].(*ast.FuncLit); ok {
-						x.quitOnce = true
-						stmts = fl.Body.List
+	// --- loopSend: which of the known whole-function shapes is it?
+	x.sendPop, x.emptySend, x.sendDefers = "unknown", "unknown", "unknown"
+	if fd := sess.Func("Session", "loopSend"); fd != nil {
+		got := canon(sess, fd)
+		for d := range deferKinds {
+			for _, p := range []string{"popAnyway", "pop"} {
+				for _, e := range []string{"quits", "skips"} {
+					if got == want(tmplLoopSend(d, p, e)) {
+						x.sendDefers, x.sendPop, x.emptySend = d, p, e
+						x.facts[3] = true
 					}
 				}
 			}
 		}
 	}
-	x.quitShape = qd != nil
-	for _, st := range stmts {
-		switch sess.Src(st) {
-		case gofacts.Norm("if s.rh != nil { s.rh.OnExit(s) } else { s.b.rh.OnExit(s) }"):
-			x.quitOnExit = true
-		case "s.b.count.Dec()":
-			x.quitDec = true
-		case "s.sendQ.Close()":
-			x.quitCloseQ = true
-		case gofacts.Norm("if s.conn != nil { var err = s.conn.Close() if err != nil { } }"),
-			gofacts.Norm("if s.conn != nil { s.conn.Close() }"), "s.conn.Close()", "_ = s.conn.Close()":
-			x.quitCloseConn = true
-		default:
-			x.quitShape = false // a statement the model does not know
+	// --- loopReceive
+	x.recvDefers = "unknown"
+	if fd := sess.Func("Session", "loopReceive"); fd != nil {
+		got := canon(sess, fd)
+		for d := range deferKinds {
+			if got == want(tmplLoopReceive(d)) {
+				x.recvDefers = d
+				x.facts[4] = true
+			}
 		}
 	}
+	// --- send
+	x.facts[5] = is(sess, "Session", "send", `func (s *Session) send(buf []byte) error {
+		var err = s.conn.SetWriteDeadline(time.Now().Add(s.b.writeTimeout))
+		if err != nil { return err }
+		_, err = s.conn.Write(buf)
+		return err }`)
+	// --- quit
+	if fd := sess.Func("Session", "quit"); fd != nil {
+		got := canon(sess, fd)
+		for m := 0; m < 32; m++ {
+			o, a, b, c, d := m&1 != 0, m&2 != 0, m&4 != 0, m&8 != 0, m&16 != 0
+			if got == want(tmplQuit(o, a, b, c, d)) {
+				x.quitOnce, x.quitOnExit, x.quitDec, x.quitCloseQ, x.quitCloseConn = o, a, b, c, d
+				x.facts[9] = true
+			}
+		}
+	}
+	// --- recovery: the deferred function itself calls recover()
+	x.facts[10] = is(sess, "Session", "recovery", `func (s *Session) recovery() { var r = recover(); if r != nil { } }`)
 
 	// --- manager
-	x.doStartsSession = mgr.Body("SessionMgr", "Do") == gofacts.Norm("{ var session = NewSession(m, conn) session.Start() }") &&
-		mgr.Body("SessionMgr", "ConnCount") == gofacts.Norm("{ return m.count.Load() }") &&
-		sess.Body("", "NewSession") == gofacts.Norm("{ return &Session{ b: b, conn: conn, sendQ: q.NewQ(), } }")
+	x.facts[6] = is(mgr, "SessionMgr", "Do", `func (m *SessionMgr) Do(conn net.Conn) { var session = NewSession(m, conn); session.Start() }`) &&
+		is(mgr, "SessionMgr", "ConnCount", `func (m *SessionMgr) ConnCount() int32 { return m.count.Load() }`) &&
+		is(mgr, "SessionMgr", "SetLogger", `func (m *SessionMgr) SetLogger(logger *ulog.Logger) { m.logger = logger }`) &&
+		is(sess, "", "NewSession", `func NewSession(b *SessionMgr, conn net.Conn) *Session { return &Session{ b: b, conn: conn, sendQ: q.NewQ(), } }`)
 
-	// --- accept loop
-	la := srv.Body("Server", "loopAccept")
+	// --- accept loop (all of it)
 	x.acceptCmp = "unknown"
-	if m := regexp.MustCompile(`if s\.ch\.ConnCount\(\) (\S+) cnf\.maxConn \{`).FindStringSubmatch(la); m != nil {
-		switch m[1] {
-		case ">=":
-			x.acceptCmp = "ge"
-		case ">":
-			x.acceptCmp = "gt"
+	if fd := srv.Func("Server", "loopAccept"); fd != nil {
+		got := canon(srv, fd)
+		for name, tok := range map[string]string{"ge": ">=", "gt": ">"} {
+			if got == want(tmplLoopAccept(tok)) {
+				x.acceptCmp = name
+				x.facts[7] = true
+			}
 		}
 	}
-	cmpTok := map[string]string{"ge": ">=", "gt": ">"}[x.acceptCmp]
-	x.acceptShape = cmpTok != "" && strings.HasSuffix(la, gofacts.Norm(
-		"for { conn, err = s.ln.Accept() if err != nil { outErr = handleErr() if outErr != nil { return outErr } continue } "+
-			"accDelay = 0 accRetryCount = 0 if s.ch.ConnCount() "+cmpTok+" cnf.maxConn { var e = conn.Close() } else { s.ch.Do(conn) } } }"))
 
 	// --- queue
-	x.queueShape = qf.Body("Q", "AddReq") == gofacts.Norm(
-		"{ a.lock.Lock() defer a.lock.Unlock() if a.closed { return ErrClosed } if a.reqMaxNum > 0 { if a.reqList.Len() >= a.reqMaxNum { return ErrReqQFull } } a.reqList.PushBack(req) a.cond.Broadcast() return nil }") &&
-		qf.Body("Q", "Close") == gofacts.Norm("{ a.lock.Lock() defer a.lock.Unlock() if a.closed { return } a.closed = true a.cond.Broadcast() }") &&
-		qf.Body("Q", "PopAnyway") == gofacts.Norm("{ return a.pop(false) }") &&
-		qf.Body("Q", "Pop") == gofacts.Norm("{ return a.pop(true) }") &&
-		qf.Body("Q", "pop") == gofacts.Norm(
-			"{ a.lock.Lock() defer a.lock.Unlock() for a.reqList.Len() == 0 { if a.closed { return nil, ErrClosed } a.cond.Wait() } "+
-				"if checkClose { if a.closed { return nil, ErrClosed } } var front = a.reqList.Front() if front != nil { a.reqList.Remove(front) return front.Value, nil } return nil, ErrSync }")
+	x.facts[8] = is(qf, "Q", "AddReq", `func (a *Q) AddReq(req interface{}) error {
+		a.lock.Lock(); defer a.lock.Unlock()
+		if a.closed { return ErrClosed }
+		if a.reqMaxNum > 0 { if a.reqList.Len() >= a.reqMaxNum { return ErrReqQFull } }
+		a.reqList.PushBack(req); a.cond.Broadcast(); return nil }`) &&
+		is(qf, "Q", "Close", `func (a *Q) Close() { a.lock.Lock(); defer a.lock.Unlock(); if a.closed { return }; a.closed = true; a.cond.Broadcast() }`) &&
+		is(qf, "Q", "PopAnyway", `func (a *Q) PopAnyway() (interface{}, error) { return a.pop(false) }`) &&
+		is(qf, "Q", "Pop", `func (a *Q) Pop() (interface{}, error) { return a.pop(true) }`) &&
+		is(qf, "Q", "pop", `func (a *Q) pop(checkClose bool) (interface{}, error) {
+		a.lock.Lock(); defer a.lock.Unlock()
+		for a.reqList.Len() == 0 { if a.closed { return nil, ErrClosed }; a.cond.Wait() }
+		if checkClose { if a.closed { return nil, ErrClosed } }
+		var front = a.reqList.Front()
+		if front != nil { a.reqList.Remove(front); return front.Value, nil }
+		return nil, ErrSync }`) &&
+		is(qf, "", "NewQ", `func NewQ(options ...Option) *Q {
+		var actorQ = &Q{ reqList: list.New(), }
+		var option = &_Option{}
+		for _, opt := range options { opt(option) }
+		if option.reqMaxNum > 0 { actorQ.reqMaxNum = option.reqMaxNum }
+		actorQ.cond.L = &actorQ.lock
+		return actorQ }`)
+
+	// --- server: the public path
+	x.facts[11] = is(srv, "Server", "Start", `func (s *Server) Start(opts ...Option) <-chan error {
+		var eh = make(chan error, 1)
+		var err error
+		go func() { err = s.LoopStart(opts...); if err != nil { eh <- err } }()
+		return eh }`) &&
+		is(srv, "Server", "LoopStart", `func (s *Server) LoopStart(opts ...Option) error {
+		var cnf = defaultStartOpt()
+		for _, opt := range opts { opt(cnf) }
+		s.ch.SetLogger(cnf.logger)
+		var err = s.startListen(cnf)
+		if err != nil { return err }
+		return s.loopAccept(cnf) }`) &&
+		is(srv, "Server", "startListen", `func (s *Server) startListen(cnf *_SrvStartOpt) error {
+		var err error
+		s.ln, err = net.Listen("tcp", s.address)
+		if err != nil { return err }
+		return nil }`) &&
+		is(srv, "Server", "Close", `func (s *Server) Close() error { return s.ln.Close() }`) &&
+		is(srv, "Server", "Address", `func (s *Server) Address() string { return s.address }`) &&
+		is(srv, "", "NewTCPSrv", `func NewTCPSrv(address string, ch IConnMgr) *Server { return &Server{ address: address, ch: ch, } }`) &&
+		is(srv, "", "NewTCPSrvX", `func NewTCPSrvX(address string, rh ISession, opts ...MOption) *Server { var ch = NewSessionMgr(rh, opts...); return NewTCPSrv(address, ch) }`)
+
+	// --- the rest of sess.go the property depends on
+	x.facts[12] = loggerOK &&
+		is(sess, "Session", "UpdateHandler", `func (s *Session) UpdateHandler(rh ISession) { s.rh = rh }`) &&
+		is(sess, "Session", "Read", `func (s *Session) Read(bs []byte) error { var _, err = io.ReadFull(s.conn, bs); return err }`)
+
+	// --- echo.go
+	x.facts[13] = is(echo, "Echo", "Start", `func (s *Echo) Start() { s.startOnce.Do(func() { s.b.count.Inc(); go s.b.eh.RunEcho(s) }) }`) &&
+		is(echo, "Echo", "ReleaseRef", `func (s *Echo) ReleaseRef() { s.b.count.Dec() }`) &&
+		is(echo, "Echo", "Send", `func (s *Echo) Send(bs []byte) error {
+		var err = s.conn.SetWriteDeadline(time.Now().Add(s.b.writeTimeout))
+		if err != nil { return err }
+		_, err = s.conn.Write(bs)
+		return err }`) &&
+		is(echo, "Echo", "Read", `func (s *Echo) Read(bs []byte) error {
+		var err = s.conn.SetReadDeadline(time.Now().Add(s.b.readTimeout))
+		if err != nil { return err }
+		_, err = io.ReadFull(s.conn, bs)
+		return err }`) &&
+		is(echo, "Echo", "Close", `func (s *Echo) Close() { var err = s.conn.Close(); if err != nil { } }`) &&
+		is(echo, "", "NewEcho", `func NewEcho(b *EchoMgr, conn net.Conn) *Echo { return &Echo{ b: b, conn: conn, } }`) &&
+		is(echo, "EchoMgr", "Do", `func (m *EchoMgr) Do(conn net.Conn) { var echo = NewEcho(m, conn); echo.Start() }`) &&
+		is(echo, "EchoMgr", "ConnCount", `func (m *EchoMgr) ConnCount() int32 { return m.count.Load() }`) &&
+		is(echo, "EchoMgr", "SetLogger", `func (m *EchoMgr) SetLogger(logger *ulog.Logger) { m.logger = logger }`)
 	return x
 }
 
 func extract(repo, leanDir string) {
 	x := doExtract(repo)
 	b := gofacts.LeanBool
+	var fs, fl []string
+	for i, v := range x.facts {
+		fs = append(fs, b(v))
+		fl = append(fl, fmt.Sprintf("%s=%v", factNames[i], v))
+	}
 	out := fmt.Sprintf(`import Nv.Model.C16
-/-! GENERATED by `+"`c16 extract`"+` from stcp/sess.go, stcp/sessmgr.go, stcp/srv.go, syncx/pipe/q/q.go — do not edit. -/
+/-! GENERATED by `+"`c16 extract`"+` from stcp/{sess,sessmgr,srv,echo}.go, syncx/pipe/q/q.go — do not edit. -/
 namespace Nv.Gen.C16
 def cfg : Nv.C16.Cfg := ⟨.%s, .%s, %s, %s, %s, %s, %s, .%s, .%s, .%s⟩
-def facts : Nv.C16.Facts := ⟨%s, %s, %s, %s, %s, %s, %s, %s, %s, %s, %s⟩
+def facts : Nv.C16.Facts := ⟨%s⟩
 end Nv.Gen.C16
 `, x.sendPop, x.emptySend, b(x.quitOnce), b(x.quitOnExit), b(x.quitDec), b(x.quitCloseQ), b(x.quitCloseConn),
-		x.sendDefers, x.recvDefers, x.acceptCmp,
-		b(x.startIncOnce), b(x.sendEnqueues), b(x.closeClosesQueue), b(x.sendLoopShape), b(x.recvLoopShape),
-		b(x.sendSetsDeadline), b(x.doStartsSession), b(x.acceptShape), b(x.queueShape), b(x.quitShape), b(x.recoveryShape))
+		x.sendDefers, x.recvDefers, x.acceptCmp, strings.Join(fs, ", "))
 	if err := gofacts.WriteIfChanged(filepath.Join(leanDir, "Nv/Gen/C16.lean"), out); err != nil {
 		fmt.Fprintln(os.Stderr, err)
 		os.Exit(2)
 	}
-	fmt.Printf("extract C16: sendPop=%s emptySend=%s quit(once=%v onExit=%v dec=%v closeQ=%v closeConn=%v) defers(send=%s recv=%s) accept=%s "+
-		"facts(start=%v send=%v close=%v sendLoop=%v recvLoop=%v sendDl=%v do=%v accept=%v queue=%v quit=%v recovery=%v)\n",
+	fmt.Printf("extract C16: sendPop=%s emptySend=%s quit(once=%v onExit=%v dec=%v closeQ=%v closeConn=%v) defers(send=%s recv=%s) accept=%s facts(%s)\n",
 		x.sendPop, x.emptySend, x.quitOnce, x.quitOnExit, x.quitDec, x.quitCloseQ, x.quitCloseConn, x.sendDefers, x.recvDefers, x.acceptCmp,
-		x.startIncOnce, x.sendEnqueues, x.closeClosesQueue, x.sendLoopShape, x.recvLoopShape, x.sendSetsDeadline, x.doStartsSession,
-		x.acceptShape, x.queueShape, x.quitShape, x.recoveryShape)
+		strings.Join(fl, " "))
 }
